@@ -27,7 +27,8 @@ pub struct TBlock {
     pub tag_kind: u8,
     /// ENDTAG flavour: 0 edit text after `</block>` in its comment, 1 whitespace inside `</ block >`
     pub end_kind: u8,
-    /// 0 own-line line comments, 1 own-line block comments, 2 everything on one line (hosts with block comments)
+    /// 0 own-line line comments, 1 own-line block comments, 2 everything on one line, 3 own-line block comments
+    /// with a start tag spread over three lines (hosts with block comments)
     pub layout: u8,
     /// multi-byte text inside the tag's comment before the tag
     pub multibyte: bool,
@@ -123,7 +124,7 @@ pub fn render_file(fi: usize, f: &TFile) -> RenderedFile {
     for (bi, b) in f.blocks.iter().enumerate() {
         pad(&mut new, &mut old, f.outside & (1 << bi) != 0);
         let name = format!("f{fi}b{bi}");
-        let layout = if h.block.is_none() { 0 } else { b.layout % 3 };
+        let layout = if h.block.is_none() { 0 } else { b.layout % 4 };
         let mut classes = b.classes & 7;
         if b.lines.is_empty() {
             classes &= !INSIDE;
@@ -180,8 +181,24 @@ pub fn render_file(fi: usize, f: &TFile) -> RenderedFile {
             new.push(format!("{open}{mb}{tag_new}{close} {c_new} {open}{end_new}{close}"));
             old.push(format!("{open}{mb}{tag_old}{close} {c_old} {open}{end_old}{close}"));
         } else {
-            new.push(format!("{open}{mb}{tag_new}{close}"));
-            old.push(format!("{open}{mb}{tag_old}{close}"));
+            if layout == 3 {
+                // `<block name="…"` / `data-v="…"` / rest — the edited attribute sits on the tag's middle line
+                let split = |t: &str| -> Vec<String> {
+                    let a = t.find(" data-v=").unwrap();
+                    let b = a + 1 + t[a + 1..].find(' ').map(|x| x).unwrap_or(t.len() - a - 2);
+                    vec![t[..a].to_string(), t[a + 1..b].to_string(), t[b..].trim_start().to_string()]
+                };
+                let (n3, o3) = (split(&tag_new), split(&tag_old));
+                new.push(format!("{open}{mb}{}", n3[0]));
+                old.push(format!("{open}{mb}{}", o3[0]));
+                new.push(format!("     {}", n3[1]));
+                old.push(format!("     {}", o3[1]));
+                new.push(format!("     {}{close}", n3[2]));
+                old.push(format!("     {}{close}", o3[2]));
+            } else {
+                new.push(format!("{open}{mb}{tag_new}{close}"));
+                old.push(format!("{open}{mb}{tag_old}{close}"));
+            }
             let at = if b.lines.is_empty() { 0 } else { b.inside_at as usize % b.lines.len() };
             for (k, l) in b.lines.iter().enumerate() {
                 if classes & INSIDE != 0 && k == at {
@@ -344,7 +361,7 @@ pub fn block_strategy() -> BoxedStrategy<TBlock> {
         any::<u8>(),
         0u8..3,
         0u8..2,
-        prop_oneof![3 => Just(0u8), 1 => Just(1u8), 1 => Just(2u8)],
+        prop_oneof![3 => Just(0u8), 1 => Just(1u8), 1 => Just(2u8), 1 => Just(3u8)],
         proptest::bool::weighted(0.25),
     )
         .prop_map(|(mut rules, ls, classes, inside_kind, inside_at, tag_kind, end_kind, layout, multibyte)| {
@@ -532,7 +549,7 @@ pub fn check_sweep(c: &SweepCase, probe: &Probe) -> Verdict {
 }
 
 pub fn run(run: &mut Run) {
-    run.rule = "random: 1..3 files (js, sh, rs, py, c) x 2..7 uniquely named non-nested blocks (own-line line comments, own-line block comments, or everything on one line) separated by 5 padding lines, each with 0..2 rules (keep-sorted, keep-unique, line-pattern, line-count, check-lua echo/nil; violating or not by chance) and a *set* of edit classes: inside (replace / insert / pure deletion of a content line), tag-only (substitute or insert a character of an attribute value, append an attribute), end-tag-only (text after </block>, whitespace in </ block >), plus edits of padding lines (outside) and untouched blocks; multi-byte text before the tag in 25%; real `git diff -U0..10`; optional path arguments. Oracle: (a) `list` in diff mode = exactly the inside/tag-only blocks with is_content_modified exactly for inside; (b) diff-mode diagnostics = full-scan diagnostics restricted to the selected blocks' extents, exit status accordingly; (c) with path arguments = full scan of those files + diff-mode result of the others. enumerated sweep: every byte position of the start tag, the content, the whole end-tag comment and the code after it in 3 one-line block templates (ASCII, multi-byte before the tag, indented) x {substitute, insert, delete}. Non-trivial (random) = a violating untouched block, a violating selected block and a tag-only block; (sweep) = a region boundary or a position where byte and character columns differ.".into();
+    run.rule = "random: 1..3 files (js, sh, rs, py, c) x 2..7 uniquely named non-nested blocks (own-line line comments, own-line block comments, everything on one line, or a start tag spread over three lines with the edited attribute on the middle one) separated by 5 padding lines, each with 0..2 rules (keep-sorted, keep-unique, line-pattern, line-count, check-lua echo/nil; violating or not by chance) and a *set* of edit classes: inside (replace / insert / pure deletion of a content line), tag-only (substitute or insert a character of an attribute value, append an attribute), end-tag-only (text after </block>, whitespace in </ block >), plus edits of padding lines (outside) and untouched blocks; multi-byte text before the tag in 25%; real `git diff -U0..10`; optional path arguments. Oracle: (a) `list` in diff mode = exactly the inside/tag-only blocks with is_content_modified exactly for inside; (b) diff-mode diagnostics = full-scan diagnostics restricted to the selected blocks' extents, exit status accordingly; (c) with path arguments = full scan of those files + diff-mode result of the others. enumerated sweep: every byte position of the start tag, the content, the whole end-tag comment and the code after it in 3 one-line block templates (ASCII, multi-byte before the tag, indented) x {substitute, insert, delete}. Non-trivial (random) = a violating untouched block, a violating selected block and a tag-only block; (sweep) = a region boundary or a position where byte and character columns differ.".into();
     run.assumptions = vec![
         "pure line deletions are only generated where no earlier net line shift exists in the file (K1 excluded by construction, counted)".into(),
         "the sweep edits the OLD line only (the parsed NEW line is always the intact template); text of the start tag's comment around the tag is unspecified and not swept".into(),
